@@ -562,6 +562,19 @@ def _v_set_fields(u, v, which, val):
         value.merge_shapes([None, ir.Shape([2]), ir.Shape(["N", 3]), ir.Shape([None, None])][val % 4])
 
 
+@op("v_merge_shapes", "vi")
+def _v_merge_shapes(u, v, i):
+    """Value.merge_shapes: an in-place edit of a value that is rejected when two concrete dimensions disagree."""
+    value = u.V(v)
+    k = i % 8
+    if k == 0:
+        value.shape = ir.Shape([None, 3, None])
+    elif k == 1:
+        value.shape = ir.Shape(["N", None])
+    else:
+        value.merge_shapes([ir.Shape([2, 3, 5]), ir.Shape([2, 4, 5]), ir.Shape([7, 3, 1]), ir.Shape([2]), ir.Shape(["N", 3, "M"]), ir.Shape([4, 6])][k - 2])
+
+
 @op("v_set_equal", "vii")
 def _v_set_equal(u, v, which, val):
     """Assign something that compares EQUAL to what the value holds without being interchangeable with it."""
